@@ -1,7 +1,7 @@
 (* C04 — Links and monitors: exactly one notification when the target goes away.
    Property theorems only; proofs live in Rel/. *)
 From Coq Require Import Permutation.
-From Ergo Require Import Common.Base Rel.Amap Rel.Model Rel.TMProofs Rel.Cases.
+From Ergo Require Import Common.Base Rel.Amap Rel.Model Rel.TMProofs Rel.RegProofs Rel.RaceProofs Rel.Cases.
 Local Open Scope N_scope.
 
 (* Every method of the concrete target manager (relations map + per-target index) refines the
@@ -24,3 +24,67 @@ Theorem C14_cleanup_node : forall n m m' l mo,
   NoDup l /\ NoDup mo.
 Proof. exact cleanup_node_spec. Qed.
 Print Assumptions C14_cleanup_node.
+
+(* Sequential histories.  In the state reached by ANY finite sequence of complete operations
+   (spawn with links, link/unlink/monitor/demonitor of every target kind, register/unregister of
+   names, aliases, events, terminate, cascade), when a target t goes away with reason r
+   (RouteTerminate{PID,ProcessID,Alias,Event} = drain), every process c finds in its mailbox exactly
+   [due] more copies of each note x: one iff x names t with reason r, c holds that relation
+   (link for exit, monitor for down) and c is alive; zero otherwise (no relation, relation removed
+   beforehand, other target, other reason).  The relations of t are consumed, all others kept. *)
+Theorem C04_sequential : forall ops nextpid uniq t r c x,
+  let s := fst (run_ops ops (st0 nextpid uniq)) in
+  cnt x c (drain t r s) = (cnt x c s + due t r s c x)%nat /\
+  (forall k, In k (rels (s_tm (drain t r s))) <-> In k (rels (s_tm s)) /\ kt k <> t).
+Proof.
+  intros ops nextpid uniq t r c x s.
+  assert (OK : idx_ok (s_tm s)) by (apply run_ops_idx_ok, idx_ok_empty).
+  split; [apply drain_exact, OK | intros k; apply drain_rels, OK].
+Qed.
+Print Assumptions C04_sequential.
+
+(* which drains a termination performs: the pid, the registered name, every alias and every event
+   of the process record, each preceded by the delete of its table entry (program order) *)
+Theorem C04_terminate_program : forall p pr r,
+  term_prog_of p pr r =
+  TDelProc p :: TDrain (TPid p) r :: TCleanCons p ::
+  (match pr_name pr with Some n => [TDelName n; TDrain (TName n me) r] | None => [] end) ++
+  flat_map (fun a => [TDelAlias a; TDrain (TAlias me a) r]) (pr_aliases pr) ++
+  flat_map (fun e => [TDelEvent e; TDrain (TEvent e me) r]) (pr_events pr).
+Proof. reflexivity. Qed.
+Print Assumptions C04_terminate_program.
+
+(* The race: one link/monitor request (its atomic steps: existence load, relation insert, re-check,
+   undo) on a local target by a live process other than p, against unregisterProcess(p, r) (its
+   atomic steps), under EVERY schedule: the request returns an error and nothing is delivered, or
+   it returns nil and exactly one notification is delivered, or it returns nil, the relation
+   stands and the target still exists (it was not one of the things that went away). *)
+Theorem C04_race : forall k r s p sched,
+  idx_ok (s_tm s) -> live (kc k) s = true -> kc k <> p -> target_node (kt k) = me ->
+  has k s = false ->
+  let n0 := nn k r s in
+  let c := run sched (race_cfg s k p r) in
+  finished c = true ->
+  match l_result (c_link c) with
+  | RErr _ => has k (c_st c) = false /\ nn k r (c_st c) = n0
+  | ROk => (has k (c_st c) = false /\ nn k r (c_st c) = S n0)
+           \/ (has k (c_st c) = true /\ nn k r (c_st c) = n0 /\ exists_target (kt k) (c_st c) = true)
+  | _ => False
+  end.
+Proof. exact race_link_vs_terminate. Qed.
+Print Assumptions C04_race.
+
+(* non-vacuity: a concrete history (observer 1002 links and monitors process 1001 and its name, 1001
+   is killed) reaches a state where the hypotheses hold and notifications are due and delivered;
+   and a concrete race schedule [load; delete; drain; insert; re-check; undo] ends with an error *)
+Example C04_example :
+  let ops := [OSpawnNode (Some 5); OSpawnNode None; OLink (lpid 1002) (TPid (lpid 1001));
+              OMonitor (lpid 1002) (TName 5 me); OTerminate (lpid 1001) r_kill] in
+  inbox_of (lpid 1002) (fst (run_ops ops (st0 1000 0))) =
+    [mknote false (TPid (lpid 1001)) r_kill; mknote true (TName 5 me) r_kill] /\
+  rels (s_tm (fst (run_ops ops (st0 1000 0)))) = [] /\
+  let s := fst (run_ops [OSpawnNode None; OSpawnNode None] (st0 1000 0)) in
+  let c := run [true; false; false; true; true; true; false; false; false]
+               (race_cfg s (mkkey (lpid 1002) (TPid (lpid 1001)) false) (lpid 1001) r_kill) in
+  finished c = true /\ l_result (c_link c) = RErr e_process_unknown /\ inbox_of (lpid 1002) (c_st c) = [].
+Proof. vm_compute. repeat split; reflexivity. Qed.
